@@ -180,7 +180,18 @@ pub fn judge_program(ctx: &mut WorkerCtx, p: &Plan, prop: &'static str, backend:
                 }
                 v
             } else {
-                diff::explore_env(&code, w, depth, p.step_cap, false)
+                let mut v = diff::explore_env(&code, w, depth, p.step_cap, false);
+                if tag == "R" || tag == "K" {
+                    // corpus programs may read long inputs: add the fixed scripts of distinct non-zero bytes
+                    for s in spaces::W_SCRIPTS {
+                        v.push((s.to_vec(), crate::refbf::run(&code, w, s, p.step_cap * 4, false)));
+                    }
+                    v.push((b"abcdefghijklmnopqrstuvwxyz".to_vec(), crate::refbf::run(&code, w, b"abcdefghijklmnopqrstuvwxyz", p.step_cap * 4, false)));
+                    let small: Vec<u8> = (0..30u8).map(|i| i % 3 + 1).collect();
+                    let c = crate::refbf::run(&code, w, &small, p.step_cap * 4, false);
+                    v.push((small, c));
+                }
+                v
             };
             ctx.count("env_nodes", runs.len() as u64);
             let halting: Vec<_> = runs.into_iter().filter(|(_, c)| c.verdict == Verdict::Halt).collect();
